@@ -5,8 +5,8 @@
 D="$1"; P="$2"; shift 2
 cd /verif
 git -C /repo apply "$D/patch.diff" || { echo "PATCH DOES NOT APPLY"; exit 9; }
-echo "--- demo with the change:"; (cd /tmp && PYTHONPATH=/repo/src timeout 300 /venv/bin/python "$D/demo.py" > /tmp/seed_demo.out 2>&1; echo "demo exit=$?"; tail -3 /tmp/seed_demo.out)
+echo "--- demo with the change:"; (cd /tmp && PYTHONPATH=/repo/src timeout 300 /venv/bin/python "$D/demo.py" $DEMO_ARGS > /tmp/seed_demo.out 2>&1; echo "demo exit=$?"; tail -3 /tmp/seed_demo.out)
 if [ $# -gt 0 ]; then echo "--- tests with the change:"; (cd /repo && timeout 1800 /venv/bin/python -m pytest -q -p no:cacheprovider "$@" 2>&1 | tail -2); fi
 echo "--- check $P with the change:"; timeout 1200 ./check "$P" > /tmp/seed_check.out 2>&1; echo "check exit=$?"; grep -v "^  " /tmp/seed_check.out | tail -4 | cut -c1-300
 git -C /repo checkout -- . ; git -C /repo status --short
-echo "--- demo on the clean tree:"; (cd /tmp && PYTHONPATH=/repo/src timeout 300 /venv/bin/python "$D/demo.py" > /tmp/seed_demo2.out 2>&1; echo "demo exit=$?")
+echo "--- demo on the clean tree:"; (cd /tmp && PYTHONPATH=/repo/src timeout 300 /venv/bin/python "$D/demo.py" $DEMO_ARGS > /tmp/seed_demo2.out 2>&1; echo "demo exit=$?")
